@@ -395,6 +395,54 @@ func c20() []*Ob {
 					c.Site(token.NoPos, "keywords are recognised only through the lexer's own tests (%d emptiness tests elsewhere)", n)
 				}
 			}},
+		{Prop: "C20", ID: "C20.7", Engine: "SIBLING", Floor: 1,
+			Desc: "one decision about the query language: every function that reads the use-seq-ql request header also falls back to conf.UseSeqQLByDefault when the header is absent (as storeapi's useSeqQL does) — a proxy-side test of the header alone stops extracting the fields pipe from queries the stores still parse as SeqQL, and full documents are returned",
+			Check: func(c *Ctx) {
+				n := 0
+				for _, fn := range c.P.Funcs {
+					pk := PkgOf(fn)
+					if strings.HasPrefix(pk, "tests") || strings.HasPrefix(pk, "tools") || strings.HasPrefix(pk, "benchmarks") {
+						continue
+					}
+					reads := false
+					var at ssa.Instruction
+					for _, call := range CallsIn(fn, nil) {
+						if !strings.HasSuffix(CallName(call), "metadata.MD).Get") {
+							continue
+						}
+						for _, a := range call.Common().Args {
+							if k, ok := ConstString(a); ok && k == "use-seq-ql" {
+								reads = true
+								at = call.(ssa.Instruction)
+							}
+						}
+					}
+					if !reads {
+						continue
+					}
+					n++
+					top := fn
+					for top.Parent() != nil {
+						top = top.Parent()
+					}
+					usesDefault := c.P.Has(top, func(in ssa.Instruction) bool {
+						u, ok := in.(*ssa.UnOp)
+						if !ok {
+							return false
+						}
+						g, ok := u.X.(*ssa.Global)
+						return ok && g.Name() == "UseSeqQLByDefault"
+					})
+					if usesDefault {
+						c.Site(at.Pos(), "%s reads the header and falls back to conf.UseSeqQLByDefault", FuncName(fn))
+					} else {
+						c.Violation("sibling:use-seq-ql:"+FuncName(fn), at.Pos(), "%s decides the query language from the use-seq-ql header alone: with --use-seq-ql-by-default and no header the stores parse the query as SeqQL while this side does not, so a fields pipe is searched for but never applied to the fetched documents", FuncName(fn))
+					}
+				}
+				if n == 0 {
+					c.Site(token.NoPos, "no function reads the use-seq-ql header")
+				}
+			}},
 		{Prop: "C20", ID: "C20.5", Engine: "ORDER+PROV", Floor: 1,
 			Desc: "order and count untouched: in doFetch every iteration over the requested ids takes exactly one document from the stream, stamps Ext1/Ext2 from that id and sends exactly one block",
 			Check: func(c *Ctx) {
